@@ -306,13 +306,18 @@ public:
 		return *this;
 	}
 
-	File& operator>>(String& x) // do what? read size then data? read until 0?
+	File& operator>>(String& x) // reads an int32 length (in the current endianness) and then that many bytes
 	{
-		int n;
-		*this >> n;
+		int n = 0;
+		int m = read(&n, sizeof(n));
+		if (_endian == ASL_OTHER_ENDIAN)
+			swapBytes(n);
+		if (m < (int)sizeof(n) || n < 0) // no length there, or not a length
+			n = 0;
 		x.resize(n);
+		n = read(&x[0], n); // the string holds what was actually there
 		x[n] = '\0';
-		read(&x[0], n);
+		x.fix(n);
 		return *this;
 	}
 
